@@ -174,12 +174,21 @@ Definition ex_hist : list event :=
   [mkEvent (ex_vs "s1") idord [Some FConflict] []; mkEvent (ex_vs "s1") idord [] [Some FExists];
    mkEvent (ex_vs "s4") idord [] []; mkEvent (ex_vs "s4") idord [] []].
 
+Ltac by_key L k :=
+  cbn in L;
+  repeat match type of L with
+         | (if String.eqb k ?x then _ else _) = _ =>
+             let E := fresh "E" in destruct (String.eqb k x) eqn:E;
+             [apply String.eqb_eq in E; inversion L; subst; reflexivity|]
+         end;
+  try discriminate L.
+
 Example C20_nonvacuous_good : good ex_store.
 Proof.
   split; [|split].
   - repeat (constructor; [|intros k' Hin; cbn in Hin; repeat (destruct Hin as [<-|Hin]; [reflexivity|]); destruct Hin]). constructor.
-  - intros k o L. cbn in L. repeat (destruct (String.eqb k _) eqn:E in L; [apply String.eqb_eq in E; inversion L; subst; reflexivity|]). discriminate.
-  - intros uid k o L _. cbn in L. repeat (destruct (String.eqb k _) eqn:E in L; [inversion L; subst; reflexivity|]). discriminate.
+  - intros k o L. by_key L k.
+  - intros uid k o L _. by_key L k.
 Qed.
 
 Example C20_nonvacuous_ords : ords_ok ex_hist.
